@@ -766,6 +766,48 @@ def enc7(ctx, c):
         for d in dicts:
             for k, v in zip(d.keys, d.values):
                 got[k.value] = U(v).split(".")[-1]
+    # decide by folding the straight-line part of the function (everything before the cascade of attempts) for each prefix
+    from ..consteval import fold_body, NotConst, Raised
+    pre = []
+    for st in cf.node.body:
+        if isinstance(st, ast.Expr) and isinstance(st.value, ast.Constant):
+            continue
+        if any(isinstance(x, (ast.Try, ast.Return)) for x in ast.walk(st)):
+            if any(isinstance(x, ast.Call) and U(x.func) == "StringValue" for x in ast.walk(st)):
+                continue        # the FCC attempt: not taken without an instruction
+            break
+        pre.append(st)
+    vparam = [p_ for p_ in cf.params if p_ not in ("self", "cls")][0]
+    EAMP = "ExplicitAddressingMode."
+    folded = {}
+    for ch in ("<", ">", "#", ""):
+        for dme in (True, False):
+            envf = dict(ctx.env)
+            envf.update({vparam: ch + "$12", "instruction": None, "default_mode_extended": dme})
+            final = {}
+            try:
+                fold_body(pre, envf, final=final)
+                folded[(ch, dme)] = (final.get("mode"), final.get(vparam))
+            except (NotConst, Raised) as e:
+                folded = None
+                break
+        if folded is None:
+            break
+    if folded and all(EAMP + k in ctx.env for k in ("EXPLICIT_DIRECT", "EXPLICIT_EXTENDED", "IMMEDIATE", "EXTENDED", "NONE")):
+        for ch, md in want.items():
+            for dme in (True, False):
+                gm, gv = folded[(ch, dme)]
+                name = next((k[len(EAMP):] for k, v in ctx.env.items() if k.startswith(EAMP) and v == gm), str(gm))
+                c.check(gm == ctx.env[EAMP + md] and gv == "$12", "Value.create_from_str:prefix %s" % ch, md, "prefix %s -> mode %s, text %r" % (ch, name, gv),
+                        "Value.create_from_str reads the operand %s$12 as mode %s with value text %r; the prefix %s must select %s and be removed" % (ch, name, gv, ch, md), wc)
+        for dme in (True, False):
+            gm, gv = folded[("", dme)]
+            wantm = ctx.env[EAMP + ("EXTENDED" if dme else "NONE")]
+            c.check(gm == wantm and gv == "$12", "Value.create_from_str:no prefix", "no prefix keeps the default mode and the text",
+                    "without prefix: mode %s text %r (default_mode_extended=%s)" % (gm, gv, dme),
+                    "Value.create_from_str reads an operand without prefix as mode %s with text %r" % (gm, gv), wc)
+        got = {}
+        want = {}
     for ch, md in want.items():
         if ch not in got:
             c.undecided("Value.create_from_str:prefix %s" % ch, "prefix-handling-not-recognised", "", wc)
